@@ -244,7 +244,7 @@ func buildReverseSearchers(
 
 	case UseReverseSuffix:
 		suffixLiterals := extractor.ExtractSuffixes(re)
-		searcher, err := NewReverseSuffixSearcher(nfaEngine, suffixLiterals, dfaConfig, hasDotStarPrefix(re))
+		searcher, err := NewReverseSuffixSearcher(nfaEngine, suffixLiterals, dfaConfig, dotStarLiteralSuffix(re, suffixLiterals))
 		if err != nil {
 			result.finalStrategy = UseDFA
 		} else {
@@ -253,7 +253,7 @@ func buildReverseSearchers(
 
 	case UseReverseSuffixSet:
 		suffixLiterals := extractor.ExtractSuffixes(re)
-		searcher, err := NewReverseSuffixSetSearcher(nfaEngine, suffixLiterals, dfaConfig, hasDotStarPrefix(re))
+		searcher, err := NewReverseSuffixSetSearcher(nfaEngine, suffixLiterals, dfaConfig, dotStarLiteralSuffix(re, suffixLiterals))
 		if err != nil {
 			result.finalStrategy = UseBoth
 		} else {
